@@ -26,6 +26,9 @@ Proof. destruct o; reflexivity. Qed.
 Definition is_neg (u : unop) : bool := match u with Neg => true | _ => false end.
 Lemma str_neg u : String.eqb (un_str u) "-" = is_neg u.
 Proof. destruct u; reflexivity. Qed.
+Definition is_pos (u : unop) : bool := match u with Pos => true | _ => false end.
+Lemma str_pos u : String.eqb (un_str u) "+" = is_pos u.
+Proof. destruct u; reflexivity. Qed.
 
 (* operator spellings lex to the operator they denote in the standard *)
 Definition btok (o : binop) : optok :=
@@ -105,11 +108,10 @@ Qed.
 Lemma wr_un R p u x :
   wr R p (Un u x) = tparens (un_paren R u p) (TOp (utok u) :: wr R (PUn u) x).
 Proof. unfold wr. cbn [wrd]. rewrite toks_parens, toks_tk, op_tok_un. reflexivity. Qed.
-Definition gpos (p : pos) : option binop := match p with PBinR po => Some po | _ => None end.
 Lemma wr_bin R p o l r :
   wr R p (Bin o l r) =
   tparens (bin_paren R o p (Bin o l r))
-          (wr R (PBinL o r (gpos p)) l ++ TOp (btok o) :: wr R (PBinR o) r).
+          (wr R (PBinL o r (gleft R p o)) l ++ TOp (btok o) :: wr R (PBinR o) r).
 Proof.
   unfold wr. cbn [wrd]. rewrite toks_parens, toks_app, toks_sp, toks_tk, toks_sp, op_tok_bin.
   reflexivity.
